@@ -44,7 +44,7 @@ func TestMain(m *testing.M) {
 	for _, s := range []string{"pkcs8pem", "pkcs8pem_pwd", "pubpem", "pkix", "hexpriv", "hexpub", "compress", "sigder", "cipherasn1"} {
 		R.Require(s+"/lz_d", s+"/lz_x", s+"/lz_y")
 	}
-	R.Require("hex_odd", "pwd_wrong", "mismatch_negated_key", "X509KeyPair/match", "X509KeyPair/mismatch", "GMX509KeyPairs/match", "GMX509KeyPairs/mismatch", "GMX509KeyPairsSingle/match", "GMX509KeyPairsSingle/mismatch", "LoadX509KeyPair/match", "LoadGMX509KeyPair/match", "LoadGMX509KeyPairs/match")
+	R.Require("cert_chain_file", "hex_odd", "pwd_wrong", "mismatch_negated_key", "X509KeyPair/match", "X509KeyPair/mismatch", "GMX509KeyPairs/match", "GMX509KeyPairs/mismatch", "GMX509KeyPairsSingle/match", "GMX509KeyPairsSingle/mismatch", "LoadX509KeyPair/match", "LoadGMX509KeyPair/match", "LoadGMX509KeyPairs/match")
 	hx.Main(m, R)
 }
 
@@ -534,6 +534,12 @@ func TestC14_Loaders(t *testing.T) {
 		switch certKind {
 		case "sm2":
 			certPEM = sm2Cert(t, k1, "sm2 leaf")
+			if rapid.Bool().Draw(t, "chainfile") {
+				// a certificate file with a second certificate behind the leaf (a chain file): the key must match the
+				// FIRST certificate; k2 - the "other" key below - is the key of the second one
+				certPEM = append(append([]byte{}, certPEM...), sm2Cert(t, k2, "second certificate in the file")...)
+				R.Class("cert_chain_file")
+			}
 			switch keyRel {
 			case "match":
 				keyPEM, wantKey = sm2KeyPEM(t, k1), k1.D
